@@ -343,3 +343,7 @@ def run(ck: Check, repo: Repo) -> None:
     c18.spdx_id_inputs(ck, repo, r4)
     rule_task_purity(ck, repo, cg)
     rule_glob_patterns(ck, repo)
+    # independence of the working directory: VCS membership tests compare paths of the same base (shared with C03-R6)
+    from . import c03
+    c03.rule_path_bases(ck, repo, "R8")
+    c03.rule_vcs_output_verbatim(ck, repo, "R9")
